@@ -26,6 +26,7 @@ type Options struct {
 	verifDir string
 	seed     int
 	noReplay bool
+	funcRe   string
 }
 
 type unitResult struct {
@@ -64,6 +65,7 @@ func main() {
 	fs.IntVar(&o.timeout, "timeout", 0, "per-obligation solver timeout (s)")
 	fs.StringVar(&o.verifDir, "verif", "/verif", "verification directory")
 	fs.BoolVar(&o.noReplay, "no-replay", false, "skip counterexample replay")
+	fs.StringVar(&o.funcRe, "func", "", "regexp: only verify contracts whose key matches (debug aid; evidence is partial)")
 	args := os.Args[2:]
 	var pos []string
 	for len(args) > 0 && !strings.HasPrefix(args[0], "-") {
@@ -199,6 +201,9 @@ func runCheck(o *Options) int {
 	}
 	var results []*unitResult
 	for _, con := range sel {
+		if o.funcRe != "" && !regexp.MustCompile(o.funcRe).MatchString(con.Key) {
+			continue
+		}
 		results = append(results, eng.verifyContract(con, o))
 	}
 	// collect obligations of this property
@@ -235,7 +240,7 @@ func runCheck(o *Options) int {
 				ob.Res = SolverResult{Status: "unsat", Solver: "syntactic"}
 				return
 			}
-			q := ob.script.query(ob.nfacts, ob.guard, not(ob.goal))
+			q := ob.script.query(ob.nfacts, ob.anc, ob.guard, not(ob.goal))
 			ob.Res = discharge(workdir, fmt.Sprintf("o%04d_%s", i, shortName(ob.Name)), q, timeout, true, nil)
 		}(i, ob)
 	}
@@ -250,7 +255,7 @@ func runCheck(o *Options) int {
 			defer wg.Done()
 			sem <- struct{}{}
 			defer func() { <-sem }()
-			q := pb.script.query(pb.nfacts, pb.guard)
+			q := pb.script.query(pb.nfacts, pb.anc, pb.guard)
 			pb.Res = discharge(workdir, fmt.Sprintf("p%04d_%s", i, shortName(pb.Name)), q, 5, false, []string{"z3-5.1.0-ematch", "cvc5"})
 		}(i, pb)
 	}
@@ -295,7 +300,7 @@ func (eng *Engine) verifyContract(con *Contract, o *Options) *unitResult {
 	// vacuity probes: preconditions satisfiable; each return reachable
 	r.probes = append(r.probes, &Obl{Name: con.Key + "#probe.requires", Kind: "probe", Func: con.Key, nfacts: u.nRequiresFacts, guard: "true", script: u.s})
 	for _, ri := range u.retInfos {
-		r.probes = append(r.probes, &Obl{Name: fmt.Sprintf("%s#probe.reach@ret%d", con.Key, ri.blk), Kind: "probe", Func: con.Key, nfacts: len(u.s.facts), guard: ri.st.reach, script: u.s})
+		r.probes = append(r.probes, &Obl{Name: fmt.Sprintf("%s#probe.reach@ret%d", con.Key, ri.blk), Kind: "probe", Func: con.Key, nfacts: len(u.s.facts), guard: ri.st.reach, script: u.s, anc: u.nodeAnc[ri.node]})
 	}
 	return r
 }
